@@ -289,6 +289,7 @@ class HMF(object):
         goodcol = find_contiguous(~zerocol)
         self.spectra = self.spectra[:, goodcol]
         self.invvar = self.invvar[:, goodcol]
+        M = len(goodcol)
         # si = si[:, goodcol]
         # newloglam = fullloglam[goodcol]
         #
@@ -301,7 +302,7 @@ class HMF(object):
         self.g, foo = kmeans(whitespectra, self.K)
         # log.debug((self.normbase(), M))
         # log.debug(self.g.shape)
-        self.g /= np.repeat(self.normbase(), M - n_zero).reshape(self.g.shape)
+        self.g /= np.repeat(self.normbase(), M).reshape(self.g.shape)
         log.debug(self.g[0:3, 0:3])
         #
         # Initialize a matrix
@@ -325,7 +326,7 @@ class HMF(object):
                 self.g = self.gstep()
                 self.a, self.g = self.reorder()
             norm = self.normbase()
-            self.g /= np.repeat(norm, M - n_zero).reshape(self.g.shape)
+            self.g /= np.repeat(norm, M).reshape(self.g.shape)
             self.a = (self.a.T*np.repeat(norm, N).reshape(self.K, N)).T
             log.debug(self.a[0:3, 0:3])
             log.debug(self.g[0:3, 0:3])
